@@ -240,6 +240,25 @@ Definition law_update (old new : job) (allowed : bool) : bool :=
      (0 <=? j_minavail new) && (j_minavail new <=? sumZ (map t_replicas (j_tasks new))) &&
      negb (j_nt new =? NT_CONFLICT)).
 
+(* law 107: the one deviation of law 104 / update_spec from "only replicas, minAvailable,
+   priority class": the claim name of a volume that has an inline volumeClaim.  By design the
+   job controller fills it in (createJobIOIfNotExist: empty -> generated name, written with an
+   UPDATE); that write, with a name CREATE's validator accepts, is allowed here.  Any other change
+   of it (a name ValidatePersistentVolumeName rejects, re-pointing a filled name, clearing it) is
+   not. *)
+Definition vol_fill_ok (O : oracles) (o n : volume) : bool :=
+  match v_claim o, v_claim n with
+  | Some _, Some _ => (v_cname n =? v_cname o) || ((v_cname o =? 0) && o_pv O (v_cname n))
+  | _, _ => true
+  end.
+Fixpoint vols_fill_ok (O : oracles) (os ns : list volume) : bool :=
+  match os, ns with
+  | o :: orest, n :: nrest => vol_fill_ok O o n && vols_fill_ok O orest nrest
+  | _, _ => true
+  end.
+Definition law_update_claimname (O : oracles) (old new : job) (allowed : bool) : bool :=
+  implb allowed (vols_fill_ok O (j_volumes old) (j_volumes new)).
+
 (* law 106: after every admitted update of a job that was admitted on create,
    the object still satisfies the job-intrinsic clauses (weak volume form) *)
 Definition law_persist (O : oracles) (j : job) : bool := holds_intrinsic O false j.
